@@ -108,6 +108,7 @@ def main(args: Any) -> int:
         print(f"[selftest] fixed-finding witnesses replayed", flush=True)
     if not fast:
         failures.extend(sensitivity(props))
+        failures.extend(benign(props))
     for f in failures:
         print("SELFTEST-FAIL:", f)
     print(f"[selftest] {'FAILED' if failures else 'ok'} in {time.monotonic() - t0:.1f}s")
@@ -137,6 +138,35 @@ def sensitivity(props: list[str]) -> list[str]:
             print(f"[selftest] mutant {name}: {'caught' if caught else 'MISSED'} (rc={rc})", flush=True)
             if not caught:
                 failures.append(f"mutant {name} not caught by {prop} quick tier (rc={rc}): {out[-300:]}")
+        finally:
+            shutil.rmtree(scratch, ignore_errors=True)
+    return failures
+
+
+def benign(props: list[str]) -> list[str]:
+    """Behaviour-preserving refactorings (benign/*.patch; the properties to run are in the file name):
+    every named quick tier must stay quiet (exit 0, no VIOLATION line)."""
+    failures = []
+    for patch in sorted(glob.glob(os.path.join(HERE, "benign", "*.patch"))):
+        name = os.path.basename(patch)
+        targets = [p for p in name.split("-") if len(p) == 3 and p[0] == "C" and p[1:].isdigit() and p in props]
+        if not targets:
+            continue
+        scratch = tempfile.mkdtemp(prefix="sigsim-benign-")
+        try:
+            dst = os.path.join(scratch, "repo")
+            os.makedirs(dst)
+            shutil.copytree("/repo/sigma", os.path.join(dst, "sigma"))
+            p = subprocess.run(["patch", "-p1", "-s", "-i", patch], cwd=dst, capture_output=True, text=True)
+            if p.returncode != 0:
+                failures.append(f"benign {name}: patch does not apply: {p.stdout}{p.stderr}")
+                continue
+            for prop in targets:
+                rc, out = _run([prop, "--tier", "quick", "--no-evidence"], {"VERIF_REPO": dst}, timeout=900)
+                quiet = rc == 0 and "VIOLATION" not in out
+                print(f"[selftest] benign {name} / {prop}: {'quiet' if quiet else 'ALARM'} (rc={rc})", flush=True)
+                if not quiet:
+                    failures.append(f"benign refactoring {name} raises an alarm in {prop} (rc={rc}): {out[-400:]}")
         finally:
             shutil.rmtree(scratch, ignore_errors=True)
     return failures
